@@ -776,10 +776,13 @@ live in a store and the heap and the per-alias dict hold their ids (the represen
 abstraction, timers and `async_send_ready_queries` are returned effects.  `GenFacts/FnSched.lean` proves the model's steps equal to
 the translated bodies for: the five comparison methods, `start`, `stop`, `_arm_ready_types`, `_rearm_if_earlier`,
 `_process_startup_queries`, constructor + `_schedule_ptr_query` (`schedule2`), `cancel_ptr_refresh` (`cancel2`),
-`reschedule_ptr_first_refresh` (`reschedule2`) and `schedule_rescue_query` (`rescueOf` + `schedule2`).  **Open** (translated and
-differentially self-tested, equation not yet proved): `_process_ready_types` (`fireReady2`), and hence no equation between whole runs
-(`exec2`) and sequences of translated calls: the theorems of this file about runs remain theorems about the hand-written `step2`,
-whose blocks — all but one — are the translated bodies by the lemmas below. -/
+`reschedule_ptr_first_refresh` (`reschedule2`), `schedule_rescue_query` (`rescueOf` + `schedule2`) and `_process_ready_types`
+(`fireReady2`: the `while` loop = `popReady2`, the rescue loop = the fold of `schedule2`, the same wake-up armed) — every block of
+`step2`.  **Not proved**: an equation between whole runs (`exec2`) and sequences of translated calls (it needs the side conditions of
+the block lemmas — `StoreOk`, "the dict's ids are in the heap", "`start` was called" — as an invariant of the translated run); so the
+theorems of this file about runs remain theorems about the hand-written `step2`, each of whose blocks is the translated body by the
+lemmas below.  **A difference the tie makes explicit**: the code hands `async_send_ready_queries` the popped names as a `set`; the model's
+`Send.types` lists them with repetitions (`C10_ready_source` relates the two by `PySet.ofList`). -/
 section Tie
 open Zc.Py Zc.Sched2 Zc.GenFn.Sched Zc.GenFacts.FnSched
 
@@ -834,6 +837,19 @@ theorem C10_rescue_source {c : Cfg} {s : QueryScheduler} {m : S2} (h : Rel c s m
       ∧ armedAfter clk m.armed eff = (rescueStep now m (toQ o)).armed := by
   obtain ⟨s', eff, h1, h2, h3, _, h4, _⟩ := schedule_rescue_query_eq h hok hl i o ho hc now clk
   exact ⟨s', eff, h1, h2, h3, h4⟩
+
+/-- **The refresh pass of the translated code** (`_process_ready_types`, `zc.done` unset) is the model's `fireReady2` whenever the
+model's pop loop succeeds: same heap and dict afterwards, same rescue queries, same wake-up armed (`call_at`), and one
+`async_send_ready_queries(False, now, types)` whose `types` is the model's list of popped names made a set. -/
+theorem C10_ready_source {c : Cfg} {s : QueryScheduler} {m : S2} (h : Rel c s m) (hok : StoreOk s) (hl : s.loop.isSome)
+    (now clk : Int) (r : List Obj × List Obj × Sched2.Dict) (hpop : popReady2 now m.heap m.dict = .ok r) :
+    ∃ s' eff m' outs, s.process_ready_types false now = .ok (s', eff)
+      ∧ fireReady2 c m now false = .ok (m', outs)
+      ∧ Rel c s' m' ∧ StoreOk s'
+      ∧ armedAfter clk none eff = m'.armed
+      ∧ sendsOf c eff = outs.map (fun sd => { sd with types := PySet.ofList strEq sd.types }) := by
+  obtain ⟨s', eff, m', outs, h1, h2, h3, h4, _, h5, h6⟩ := process_ready_types_eq h hok hl now clk r hpop
+  exact ⟨s', eff, m', outs, h1, h2, h3, h4, h5, h6⟩
 
 end Tie
 
